@@ -107,6 +107,18 @@ Theorem tick_expires_snapshot : forall ps nc pq rq ops, env_ok ops (init ps nc p
 Proof. exact tick_expires_snapshot_proved. Qed.
 Print Assumptions tick_expires_snapshot.
 
+(* exactly one, after close: in EVERY reachable state in which node.close() has completed on every
+   table ([closed]: reads, every proposal shard, config change, snapshot, log query) and the step
+   worker holds no read requests between get() and add(), every accepted request - of any kind,
+   accepted at any time - has exactly one terminal result.  (No request can be accepted into a
+   closed table and nothing a closed table held was forgotten; covers F3 and the log query defect.) *)
+Theorem exactly_one_after_close : forall ps nc pq rq ops, env_ok ops (init ps nc pq rq) ->
+  let s := run ops (init ps nc pq rq) in
+  closed s -> taken (R s) = [] ->
+  forall r, r < h_nreq (H s) -> r_status (h_reqs (H s) r) = 1 -> nterm (got s r) = 1%nat.
+Proof. exact exactly_one_when_closed_proved. Qed.
+Print Assumptions exactly_one_after_close.
+
 (* truthfulness: every result ever delivered is the one its code path produces - the apply path
    delivers Completed/Rejected carrying exactly the value it was given (no assumption on the
    environment needed); gc delivers Timeout only when deadline < now; close only Terminated ...
